@@ -180,6 +180,10 @@ def _replay(rec):
         bad.append(f"find('a'): expected {rec['finda']}, observed {fid(root.find('a'))}")
     if fid(root.find("a", classes=["c"])) != list(rec["findc"]):
         bad.append(f"find('a', classes=['c']): expected {rec['findc']}, observed {fid(root.find('a', classes=['c']))}")
+    if fid(root.find("a", classes=["c", "d"])) != list(rec["findcd"]) or fid(root.find("a", classes=("d", "c"))) != list(rec["findcd"]):
+        bad.append(f"find('a', classes=['c', 'd']): expected {rec['findcd']} (all of the classes), observed {fid(root.find('a', classes=['c', 'd']))}")
+    if fid(root.find("a", classes=[])) != list(rec["finde"]):
+        bad.append(f"find('a', classes=[]): expected {rec['finde']}, observed {fid(root.find('a', classes=[]))}")
     if fid(root.find(H.Data)) != list(rec["findd"]):
         bad.append(f"find(Data): expected {rec['findd']}, observed {fid(root.find(H.Data))}")
     if fid(root.find("a", attrs={"class": "c"})) != [i for i in rec["finda"] if rec["nodes"][i - 1]["a"] == 1]:
